@@ -16,7 +16,7 @@ import threading
 for _v in ("OPENBLAS_NUM_THREADS", "OMP_NUM_THREADS", "MKL_NUM_THREADS"):
     os.environ.setdefault(_v, "1")  # before numpy is imported (workers and replay children): no BLAS thread pools, nothing here needs them
 
-from vt.state import FOREIGN, Checker, ConfigRun, HarnessError, Ids, Threads
+from vt.state import DEFAULT_SIDE, FOREIGN, Checker, ConfigRun, HarnessError, Ids, Threads
 
 PID = "C17"
 ENGINE = "E3"
@@ -121,17 +121,43 @@ def _mgr(which):
 
 
 def _reference_manager(bad):
-    """Executable reference model (conformance only): per-thread override over a shared default; `bad` republishes
-    the saved backend globally on a thread-local context exit (the defect class the check must detect)."""
+    """Executable reference model (conformance only; shares NO code with the managers under verification): a per-thread
+    override over a shared default; `bad` republishes the saved backend globally on a thread-local context exit (the defect
+    class the check must detect)."""
     from contextlib import contextmanager
 
-    from tensorly.backend import BackendManager
-
-    class Ref(BackendManager):
+    class Ref:
         _loaded_backends = dict()
+        available_backend_names = []
         _backend = None
+        _default_backend = None
         _THREAD_LOCAL_DATA = threading.local()
-        available_backend_names = ["numpy"]
+
+        @classmethod
+        def current_backend(cls):
+            return cls._THREAD_LOCAL_DATA.__dict__.get("backend", cls._backend)
+
+        @classmethod
+        def get_backend(cls):
+            return cls.current_backend().backend_name
+
+        @classmethod
+        def load_backend(cls, name):
+            from tensorly.backend.core import Backend
+
+            if name not in cls.available_backend_names:
+                raise ValueError(f"Unknown backend name {name!r}")
+            cls._loaded_backends[name] = Backend._available_backends[name]()
+            return cls._loaded_backends[name]
+
+        @classmethod
+        def set_backend(cls, backend, local_threadsafe=False):
+            if isinstance(backend, str):
+                backend = cls._loaded_backends[backend] if backend in cls._loaded_backends else cls.load_backend(backend)
+            cls._THREAD_LOCAL_DATA.backend = backend
+            if not local_threadsafe:
+                cls._default_backend = backend.backend_name
+                cls._backend = backend
 
         @classmethod
         @contextmanager
@@ -144,16 +170,9 @@ def _reference_manager(bad):
                 cls.set_backend(old, local_threadsafe=(local_threadsafe and not bad))
 
         @classmethod
-        def set_backend(cls, backend, local_threadsafe=False):
-            if isinstance(backend, str):
-                backend = cls._loaded_backends[backend] if backend in cls._loaded_backends else cls.load_backend(backend)
-            cls._THREAD_LOCAL_DATA.backend = backend
-            if not local_threadsafe:
-                cls._default_backend = backend.backend_name
-                cls._backend = backend
+        def trace(cls, *args, **kwargs):
+            return cls.current_backend().trace(*args, **kwargs)
 
-    Ref.set_backend("numpy")
-    Ref.trace = staticmethod(Ref.dispatch_backend_method("trace", lambda *a, **k: None))
     return Ref
 
 
@@ -214,6 +233,9 @@ class TokenUniverse:
         return r if isinstance(r, str) and r in self.tok else FOREIGN + repr(r)[:40]
 
     def close(self):
+        if getattr(self, "threads", None) is not None:
+            self.threads.stop()
+            self.threads = None
         M = self.M
         M._backend, M._default_backend = self.saved[0], self.saved[1]
         M._loaded_backends.clear()
@@ -271,7 +293,11 @@ class RealUniverse:
     def end(self):
         self.M._backend, self.M._default_backend = self.saved
 
-    close = end
+    def close(self):
+        if getattr(self, "threads", None) is not None:
+            self.threads.stop()
+            self.threads = None
+        self.end()
 
     def label_name(self, n):
         return ("real", n) if n in self.names else FOREIGN + repr(n)[:40]
@@ -325,11 +351,17 @@ def run_scenario(U, sc, ck):
         U.obj(ids.rep(role))  # make sure the backend exists and is registered under its name
         return U.name(ids.rep(role))
 
-    st = {"g": "g", "has": [bool(x) for x in sc["has"]], "s": {t: f"s{t}" for t in range(N)}, "actor_known": True}
-    th = Threads(N)
+    st = {"g": "g", "has": [bool(x) for x in sc["has"]], "s": {t: f"s{t}" for t in range(N)}, "actor_known": True, "g_known": True}
+    # worker threads are reused by the scenarios of one configuration; before a scenario every thread wipes ALL of its
+    # thread-local manager state (so it is indistinguishable from a thread that never selected a backend)
+    if getattr(U, "threads", None) is None or len(U.threads.workers) != N:
+        U.threads = Threads(N)
+    th = U.threads
+    th.must_all(lambda: M._THREAD_LOCAL_DATA.__dict__.clear())
     U.begin()
 
     def set_slot(t, role):
+        touched()
         if role is None:
             th.must(t, lambda: M._THREAD_LOCAL_DATA.__dict__.pop("backend", None))
         else:
@@ -337,6 +369,7 @@ def run_scenario(U, sc, ck):
             th.must(t, lambda: setattr(M._THREAD_LOCAL_DATA, "backend", o))
 
     def set_default(role):
+        touched()
         M._backend = O(role)
         M._default_backend = NM(role)
 
@@ -358,8 +391,15 @@ def run_scenario(U, sc, ck):
                 out["attr"] = FOREIGN + "exc:" + type(e).__name__
         return out
 
+    cache = {"P": None}  # the last observation stays valid until the next state change (harness injection or API operation)
+
+    def touched():
+        cache["P"] = None
+
     def observe_all():
-        return {t: th.must(t, observe_one) for t in range(N)}
+        if cache["P"] is None:
+            cache["P"] = dict(enumerate(th.must_all(observe_one)))
+        return cache["P"]
 
     def abstract(t):
         return st["s"][t] if st["has"][t] else st["g"]
@@ -369,6 +409,8 @@ def run_scenario(U, sc, ck):
         for t in range(N):
             if t == a and not st["actor_known"]:
                 continue
+            if not st["has"][t] and not st["g_known"]:
+                continue  # the shared default after a global-flavour context exit is not constrained
             exp = ("ite", str(t), f"s{t}", "g") if initial else abstract(t)
             pairs += [(P[t][ch], exp, f"{where}: thread {t} {ch}") for ch in CH]
         ck.eq(f"{mgr}/query/-/observe-is-override-or-default", pairs)
@@ -392,6 +434,7 @@ def run_scenario(U, sc, ck):
         st["actor_known"] = True
         if not local:
             st["g"] = role
+            st["g_known"] = True
 
     def selection_arg(L):
         if L["how"] == "inst":
@@ -407,6 +450,7 @@ def run_scenario(U, sc, ck):
         if e.get("reselect"):
             role, flav = e["reselect"]
             nm = NM(role)
+            touched()
             stt, v = th.run(a, lambda: mod.set_backend(nm, local_threadsafe=(flav == "local")))
             if stt == "ok":
                 selected(role, flav == "local")
@@ -415,6 +459,7 @@ def run_scenario(U, sc, ck):
         if e.get("g"):
             set_default(e["g"])
             st["g"] = e["g"]
+            st["g_known"] = True
         for t_, role in (e.get("slots") or {}).items():
             t = int(t_)
             if role == "keep":
@@ -438,6 +483,7 @@ def run_scenario(U, sc, ck):
             opname = f"{mgr}/query/-"
             q_dispatch(P, opname, "pre-state")
             th.must(a, observe_one)
+            touched()
             Q = observe_all()
             ck.eq(f"{opname}/query-changes-nothing", [(Q[t][ch], P[t][ch], f"thread {t} {ch}") for t in range(N) for ch in Q[t]])
         elif op == "set":
@@ -445,6 +491,7 @@ def run_scenario(U, sc, ck):
             local = L["flav"] == "local"
             opname = f"{mgr}/set-{L['how']}/{L['flav']}"
             arg = selection_arg(L)
+            touched()
             stt, v = th.run(a, lambda: mod.set_backend(arg, local_threadsafe=local))
             ck.fact(f"{opname}/no-exception", stt == "ok", f"set_backend({arg!r}, local_threadsafe={local}) raised {type(v).__name__}: {v}")
             Q = observe_all()
@@ -454,6 +501,7 @@ def run_scenario(U, sc, ck):
             local = R["flav"] == "local"
             opname = f"{mgr}/{R['kind']}-rejected/{R['flav']}"
             ran = []
+            touched()
             if R["kind"] == "set":
                 stt, v = th.run(a, lambda: mod.set_backend(R["name"], local_threadsafe=local))
             else:
@@ -490,24 +538,29 @@ def run_scenario(U, sc, ck):
                 try:
                     with mod.backend_context(arg, local_threadsafe=local):
                         entered.append(1)
+                        touched()
                         Q = observe_all()
                         check_select(opn(k, "enter"), P0, Q, L["sel"], local, f"inside level-{k} body")
                         selected(L["sel"], local)
                         havoc(f"e{k}")
+                        flying = None
                         if k < d:
                             try:
                                 level(k + 1)
-                            except Boom:
+                            except Boom as e:
                                 if exc[1] != k:
-                                    raise
+                                    flying = e  # not caught in this body: continues through this level's exit below
                             havoc(f"r{k}")
                         pre_exit.append(observe_all())
+                        if flying is not None:
+                            raise flying
                         if exc and exc[0] == k:
                             raise boom
                 except BaseException as e:  # noqa: what came out of the with statement is the result
                     if isinstance(e, (HarnessError, _Stop)):
                         raise
                     out = e
+                touched()
                 R = observe_all()
                 ck.fact(f"{opn(k, 'enter')}/enter-completes", bool(entered), f"backend_context({arg!r}, local_threadsafe={local}) raised on enter: {type(out).__name__}: {out}")
                 if not entered:
@@ -525,14 +578,22 @@ def run_scenario(U, sc, ck):
                 if ACCEPT_FOLLOW_DEFAULT and not had and pre_exit:
                     # lenient reading: a thread that had never selected may, after the exit, follow the *current* shared default
                     # (the one in force just before the exit, or the one threads without an override observe after it)
-                    free = [t for t in others if not st["has"][t]]
-                    restored = {ch: ("oneof", P0[a][ch], st["g"]) + ((R[free[0]][ch],) if free else ()) for ch in CH}
+                    fresh = Threads(1, prefix="vt-state-probe")  # a brand-new thread never selected: it observes the shared default
+                    try:
+                        D = fresh.must(0, observe_one)
+                    finally:
+                        fresh.stop()
+                    restored = {ch: ("oneof", P0[a][ch], D[ch]) + ((st["g"],) if st["g_known"] else ()) for ch in CH}
                 ck.eq(f"{opname}/actor-restored", [(R[a][ch], restored[ch], f"{where}: thread {a} {ch} vs pre-enter") for ch in CH])
                 if local and pre_exit:
                     P1 = pre_exit[0]
                     ck.eq(f"{opname}/others-unchanged", [(R[t][ch], P1[t][ch], f"{where}: thread {t} {ch} vs just before exit") for t in others for ch in CH])
                 q_dispatch(R, opname, where)
                 st["actor_known"] = False  # representation after an exit is not constrained (only the observation is)
+                # the shared default after an exit: unconstrained for the global flavour; for the local flavour its preservation
+                # is exactly `others-unchanged` above -- either way later query checks must not re-report it, so it counts as
+                # unknown until the next interleaved activity re-assigns it
+                st["g_known"] = False
                 if passes:
                     raise boom
 
@@ -541,8 +602,11 @@ def run_scenario(U, sc, ck):
                 raise HarnessError(f"scenario driver raised {type(v).__name__}: {v}")
         else:
             raise HarnessError(f"unknown op {op}")
+    except BaseException:
+        th.stop()  # never reuse threads after a failed scenario
+        U.threads = None
+        raise
     finally:
-        th.stop()
         U.end()
 
 
@@ -675,17 +739,22 @@ def scenarios(cfg, tier):
             if T["mixed_how"] and d > 1:
                 hows += [("inst", "name", "inst")[:d], ("name-fresh",) * d]
             havocs = list(T["havoc"]) + (["g=sel"] if T["rich_alias"] else [])
+            if d >= 3:
+                havocs = ["none", "fresh-flip"]
+            key_alias = ("distinct", f"n{d}=old", "all=g")  # for the secondary ways of selecting: the most discriminating alias patterns
             for how in hows:
                 for exc in excs:
                     for an, al in _alias_patterns(T, has, actor, d):
-                        if tier == "quick" and d > 1 and how[0] == "name" and an not in ("distinct", "n2=old"):
-                            continue  # quick: by-name nesting with the two most discriminating alias patterns only
+                        if d > 1 and how != hows[0] and an not in key_alias:
+                            continue
                         for hv in havocs:
                             if tier == "quick" and d > 1 and hv == "g-only":
                                 continue
                             for body in T["bodies"]:
-                                if body != "idle" and tier == "quick" and hv != "fresh-flip":
-                                    continue  # quick: a re-selecting with-body is combined with the full havoc only
+                                if body != "idle" and hv != "fresh-flip" and (tier == "quick" or d > 1):
+                                    continue  # a re-selecting with-body is combined with the full havoc only
+                                if body == "reselect-global" and d >= 3:
+                                    continue
                                 ev, al2 = _havoc(hv, has, actor, d, body)
                                 levels = [{"flav": flavs[k], "how": how[k], "sel": f"n{k + 1}"} for k in range(d)]
                                 out.append(dict(b, op="ctx", levels=levels, exc=exc, alias=dict(al, **al2), alias_name=an, havoc=ev, havoc_name=hv, body=body))
@@ -699,7 +768,7 @@ def _ids(sc, assign=None, default=None):
 
 def _make_inputs(sc, colour):
     names = REAL[sc["mgr"]]
-    return {"scenario": sc, "assign": {rep: names[c] for rep, c in colour.items()}, "default": names[0]}
+    return {"scenario": sc, "assign": {rep: names[c] for rep, c in colour.items() if rep != DEFAULT_SIDE}, "default": names[0]}
 
 
 def run_config(cfg, tier):
